@@ -56,7 +56,9 @@ template <typename X> static L toL(const X& s) {
 static const std::vector<L>& menu() { static std::vector<L> m = {{6}, {2, 3}, {3, 2}, {1, 3}, {4, 2}, {8}, {2, 2, 2}, {1, 2, 3}, {9}, {1, 1, 2, 3}, {2}, {5, 1}, {1, 5}, {1, 6}, {2, 4}, {3, 3}, {2, 3, 2}, {4, 1}, {1, 1, 1}, {1, 2, 2}}; return m; }
 // (5,1) / (1,5): dim-2 requests that exceed ONE per-axis bound of the clipped kinds (4) while their element count fits the product of the bounds - a refused resize that
 // must not touch the buffer (seeded change m20c replaced the per-axis pre-check by a product check; the quick menu had no such entry)
-enum { NQUICK = 13 };
+// (1,6), (2,4), (3,3): the quick tier also needs a dim-2 request ABOVE the capacity 8 of the legacy hybrid class whose trailing extent differs from the current one
+// (seeded change m20f left the refused shape's strides behind; only the thorough menu had (3,3))
+enum { NQUICK = 16 };
 enum SK { CS, LS, FS, HS, DS, LS6 };   // shape kinds: constant, clipped (bound 4), fixed dim, bounded dim, dynamic dim, clipped (bound 6)
 enum BK { FB, HB, DB };           // buffer kinds: fixed, bounded, dynamic
 
